@@ -8,14 +8,20 @@ from props import c01
 
 ID = 'C02'
 THEOREMS = [
+    'Sourcer.C02_tree_well_shaped_and_yield',
+    'Sourcer.C02_generated_code_builds_that_tree',
+    'Sourcer.C02_reductions_preserve_order',
     'Sourcer.C01_codegen_refines_peg',
     'Tie.implFlags_sound',
     'Tie.impl_refines',
 ]
 TIE_MODULES = ['Tie.Flags']
 ASSUMPTIONS = [
-    'the specification of a table is operational (pegOT: PEG sub-parsers + operator-precedence stacks, ending after the last complete operand '
-    'or before a non-associative conflict); see DESIGN.md for the state of the declarative theorems (yield, well-shapedness)',
+    'C02_tree_well_shaped_and_yield needs the rows of a table to be tagged (prec, assoc) with assoc = 0 on prefix rows and != 0 on infix rows; '
+    'the driver evaluates that hypothesis (allTablesTagged) on every table the real generator builds (tags are read from the source text of the real tagger lambdas)',
+    'uniqueness of the well-shaped tree for a given reading (C02 says "the unique tree") and maximality of the run are not proved as theorems; '
+    'both are decided by the exhaustive correspondence (all token strings up to the length bound against the operational specification)',
+    'across rows the longest match wins (Longest), inside a row the first alternative that matches (ordered choice): part of the sub-parsers, covered by C01',
 ]
 
 SPELLINGS = ['+', '-', '++', '!', '*']
@@ -91,8 +97,16 @@ def run(tier, seed, lean):
     from extract_flags import bits_of
     bits = bits_of(lean.regen['flags']['entries']) if lean.regen.get('flags', {}).get('ok') else None
     jobs = build_jobs(tier, seed)
+    for j in jobs:
+        j['tagcheck'] = True
     results = corerun.run_jobs(jobs, bits)
     out = c01.summarize(results, 'operator tables (1-5 rows over left/right/infix/prefix/postfix/mixfix, spellings shared between rows and prefixes of one another, operand literal/regex/rule/class/consuming rule, in several enclosing contexts)')
+    untagged = [r for r in results if r.get('tagcheck') is not None and ('0' in r['tagcheck'].split() or r['tagcheck'].startswith('error'))]
+    out['coverage']['tables_checked_for_tagging'] = sum(1 for r in results if r.get('tagcheck') is not None)
+    for r in untagged[:5]:
+        out['broken'].append({'key': f'{r["id"]}|tagging', 'grammar': r['text'],
+                              'what': 'a table of the real generator is not tagged (prec, assoc) as the hypothesis of C02_tree_well_shaped_and_yield requires: '
+                                      + r['tagcheck'][:80]})
     return out
 
 
